@@ -232,15 +232,37 @@ def _analysis(c):
     return I, S, byname, prod, needed, kept
 
 
+def _is_err(impl_obs):
+    return isinstance(impl_obs, list) and len(impl_obs) == 2 and impl_obs[0] == "err"
+
+
 def finding_id(c, impl_obs, kind):
+    """Known-finding class of a FAILING case, decided from the case structure: the id is returned only when the
+    mechanism of that finding is what makes THIS request fail.  All known findings concern requests that are
+    computable from the provided names; an uncomputable request that is answered, or a wrong value, is never known."""
     I, S, byname, prod, needed, kept = _analysis(c)
-    if needed - kept:
-        return "c11-needed-without-provided-ancestor"
-    if kept - needed:
-        return "c11-cutoff-producer-kept"
-    # the drop loop validates after every single drop: differing defaults of a parameter whose producer is dropped
-    cur = list(c["p"]["funcs"])
-    for f in [g for g in c["p"]["funcs"] if g["name"] not in kept]:
+    funcs = c["p"]["funcs"]
+    if c["S"] is None and c.get("auto"):
+        return None                      # only wrong values can fail there
+    if not S or any(o not in prod for o in S) or any(o in I for o in S):
+        return None                      # outside the property: cannot fail
+    alld = {cur for f in funcs for cur, _v in pipegen.func_defaults(f) if cur not in f["bound"] and cur not in prod}
+    computable = all(cur in f["bound"] or cur in I or cur in prod or cur in alld
+                     for n in needed for f in [byname[n]] for cur, _ in f["params"])
+    if not computable:
+        return None                      # must be rejected; an answer is a genuine violation
+    if not _is_err(impl_obs):
+        # accepted, but not with exactly the needed work (or with wrong values)
+        ok_funcs = None
+        if c["kind"] == "sub" and isinstance(impl_obs, list) and impl_obs and impl_obs[0] == "ok":
+            ok_funcs = set(impl_obs[1])
+            first_out = {f["name"]: f["outs"][0] for f in funcs}
+            if ok_funcs == {first_out[n] for n in kept} and kept - needed and needed <= kept:
+                return "c11-cutoff-producer-kept"
+        return None
+    # a computable request was refused: replay the checks of subpipeline / prepare_run and name the cause
+    cur = list(funcs)
+    for f in [g for g in funcs if g["name"] not in kept]:          # the drop loop validates after every drop
         cur = [g for g in cur if g["name"] != f["name"]]
         outs_now = {o for g in cur for o in g["outs"]}
         seen = {}
@@ -250,16 +272,38 @@ def finding_id(c, impl_obs, kind):
                     continue
                 if seen.setdefault(k, v) != v:
                     return "c11-drop-loop-inconsistent-defaults"
-    if c["kind"] == "map" and any(prod.get(n) in kept for n in I):
-        return "c11-map-rejects-supplied-output-of-kept-function"
-    declared = {cur for n in kept for cur in byname[n]["defs"]} | \
-               {cur for n in kept for cur, o in byname[n]["params"] if o in byname[n]["sigd"] and cur not in byname[n]["bound"]}
-    alld = {cur for f in byname.values() for cur in f["defs"]} | \
-           {cur for f in byname.values() for cur, o in f["params"] if o in f["sigd"] and cur not in f["bound"]}
-    for n in kept:
-        for cur, _ in byname[n]["params"]:
-            if cur not in byname[n]["bound"] and cur not in I and cur not in prod and cur in alld and cur not in declared:
-                return "c11-default-declared-by-dropped-function"
+    kept_outs = {o for n in kept for o in byname[n]["outs"]}
+    if any(o not in kept_outs for o in S):                          # a requested output did not survive
+        return "c11-needed-without-provided-ancestor" if needed - kept else None
+    defaults_kept = {k for n in kept for k, _v in pipegen.func_defaults(byname[n])
+                     if k not in byname[n]["bound"] and k not in kept_outs}
+    with_defaults = defaults_kept & alld
+    new_roots = {cur for n in kept for cur, _ in byname[n]["params"]
+                 if cur not in byname[n]["bound"] and cur not in kept_outs}
+    missing = new_roots - with_defaults - I
+    if missing:
+        causes = set()
+        for m in missing:
+            readers = {n for n in kept if any(cur == m and cur not in byname[n]["bound"] for cur, _ in byname[n]["params"])}
+            if m in prod and prod[m] in needed and readers & needed:
+                causes.add("c11-needed-without-provided-ancestor")      # its (needed) producer was dropped
+            elif readers and not (readers & needed):
+                causes.add("c11-cutoff-producer-kept")                   # only a cut-off function wants it
+            elif m not in prod and m in alld:
+                causes.add("c11-default-declared-by-dropped-function")
+            else:
+                causes.add(None)
+        for cid in ("c11-needed-without-provided-ancestor", "c11-cutoff-producer-kept",
+                    "c11-default-declared-by-dropped-function"):
+            if cid in causes and None not in causes:
+                return cid
+        return None
+    if c["kind"] == "map":                                          # _validate_complete_inputs: extra inputs
+        extra = I - new_roots
+        for m in sorted(extra):
+            if m in prod and prod[m] in kept:
+                return ("c11-map-rejects-supplied-output-of-kept-function" if prod[m] in needed
+                        else "c11-cutoff-producer-kept")
     return None
 
 
